@@ -73,6 +73,22 @@ class CastCast(RewriteRuleClassBase):
         }
     )
 
+    # The first cast must be exact, otherwise the value is rounded twice: e.g.,
+    # float64 => float32 => float16 differs from float64 => float16.
+    # Every value of these types is representable in float32.
+    _exact_in_float: ClassVar = frozenset(
+        {
+            ir.DataType.FLOAT,
+            ir.DataType.FLOAT16,
+            ir.DataType.BFLOAT16,
+            ir.DataType.BOOL,
+            ir.DataType.INT8,
+            ir.DataType.UINT8,
+            ir.DataType.INT16,
+            ir.DataType.UINT16,
+        }
+    )
+
     def pattern(self, op, x, to, to_ignored):
         return op.Cast(op.Cast(x, to=to_ignored), to=to)
 
@@ -80,6 +96,10 @@ class CastCast(RewriteRuleClassBase):
         check_result = MatchResult()
         type2 = to_ignored.as_int()
         type3 = to.as_int()
+        if x.dtype not in self._exact_in_float:
+            return check_result.fail(
+                f"Input type {x.dtype} is unknown or not exactly representable in float32."
+            )
         if (type2, type3) not in self._allowed_type2_type3:
             return check_result.fail(
                 f"Intermediate cast elimination not recognized as valid from {type2} to {type3}. "
